@@ -708,6 +708,8 @@ class Engine:
                         finally:
                             self.cur_file = saved
             return self.load(state, base, mattr, node)
+        if isinstance(base, Opaque):
+            return Builtin("opaque:" + attr)
         if isinstance(base, Tuple_):
             self.unsupported("attribute of tuple", node)
         if base is None:
@@ -833,6 +835,11 @@ class Engine:
                     r = simp(ea == eb)
                 else:
                     # None compared with a number/bool: identity is False
+                    ra, other = (a, b) if isinstance(a, Ref) else (b, a)
+                    if isinstance(ra, Ref) and is_z3(other) and z3.is_int(other):
+                        # element of an untyped list (`[]` literal): its integer IS the reference
+                        r = simp(ra.e == other)
+                        return znot(r) if neg else r
                     if isinstance(op, (ast.Is, ast.IsNot)) and (a is None or b is None):
                         other = b if a is None else a
                         if is_z3(other) and z3.is_bool(other) or isinstance(other, (bool, int, Fraction, str)) or is_num(other):
@@ -882,6 +889,8 @@ class Engine:
         return self.binop(state, node.op, a, b, node)
 
     def binop(self, state, op, a, b, node=None):
+        if isinstance(a, Opaque) or isinstance(b, Opaque):
+            return Opaque("arith")          # wall-clock values and the like: never inspected
         if isinstance(a, str) or isinstance(b, str):
             if isinstance(op, ast.Add) and isinstance(a, str) and isinstance(b, str):
                 return a + b
@@ -1559,6 +1568,10 @@ class Engine:
             return obj
         if name.startswith("spec:"):
             return self.spec_funcs[name[5:]](self, state, *args)
+        if name in ("datetime.datetime.now", "datetime.now", "time.time"):
+            return Opaque("clock")
+        if name.startswith("opaque:"):
+            return self.fresh("opaque_" + name[7:], RealS)
         if name == "print":
             self.stdout.append((list(state.pc) if state is not None else [], [a for a in args if isinstance(a, str)]))
             return None
@@ -1930,6 +1943,8 @@ class Engine:
         spec = self.loop_specs.get((self.cur_file, self.cur_qual_for_loops(), self.loop_ordinal(st)))
         if isinstance(it, Tuple_) and (spec is None or spec.unroll):
             return self.unroll(state, st, it.items)
+        if isinstance(it, Ref) and (it.cls or "").startswith(("vec:", "list:")) and spec is not None:
+            return self.for_list(state, st, it, spec)
         if isinstance(it, Ref) and (it.cls or "").startswith(("vec:", "list:")) and spec is None:
             n = concrete(self.vec_len(state, it))
             if n is None:
@@ -2169,6 +2184,31 @@ class Engine:
                 outs.append((s, "enter"))
             return outs
         tnames = {n.id for n in ast.walk(st.target) if isinstance(n, ast.Name)}
+        return self.loop_generic(state, st, spec, head, tnames)
+
+    def for_list(self, state, st, it, spec):
+        """`for x in lst` over a list of symbolic length: index loop with the ghost index `gli` (0-based position of the
+        next element); the list must not be written by the body (its elements are re-read at every head)."""
+        state.env["gli"] = 0
+
+        def head(s):
+            i = s.env["gli"]
+            n = self.vec_len(s, it)
+            c = to_z3(i, IntS) < to_z3(n, IntS)
+            cc = concrete(c)
+            if cc is not None:
+                if not cc:
+                    return [(s, "exit")]
+                self.assign_target(s, st.target, self.vec_get(s, it, i, st), st)
+                s.env["gli"] = i + 1
+                return [(s, "enter")]
+            s_exit = s.fork()
+            s.add_cond(c)
+            s_exit.add_cond(z3.Not(c))
+            self.assign_target(s, st.target, self.vec_get(s, it, i, st), st)
+            s.env["gli"] = i + 1
+            return [(s, "enter"), (s_exit, "exit")]
+        tnames = {n.id for n in ast.walk(st.target) if isinstance(n, ast.Name)} | {"gli"}
         return self.loop_generic(state, st, spec, head, tnames)
 
     def loop_generic(self, state, st, spec, head, target_names):
